@@ -16,7 +16,7 @@ for line in open('/tmp/baseline-run.log', errors='replace'):
     m=re.match(r'\s*Doc-tests (\S+)', line)
     if m:
         cur=('doc', m.group(1)); continue
-    m=re.match(r'test (\S+) \.\.\. (ok|FAILED|ignored)', line)
+    m=re.match(r'test (\S+)(?: - should panic)? \.\.\. (ok|FAILED|ignored)', line)
     if m and cur:
         (ok if m.group(2)=='ok' else failed if m.group(2)=='FAILED' else set()).add((cur, m.group(1)))
 def matches(name, entry):
